@@ -190,6 +190,12 @@ fn rich_doc(ctx: &Ctx) -> MDoc {
 /// Structural spans of an arbitrary PDF image, found by scanning for the keys
 /// whose values are lengths, offsets, counts and widths.
 fn scan_hot(img: &[u8]) -> Vec<(usize, usize)> {
+    let mut tail = vec![(img.len().saturating_sub(16), img.len())];
+    tail.extend(scan_hot_keys(img));
+    tail
+}
+
+fn scan_hot_keys(img: &[u8]) -> Vec<(usize, usize)> {
     let keys: [&[u8]; 14] = [b"/Length", b"/W", b"/Index", b"/N", b"/First", b"/Prev", b"/Size", b"/Columns", b"/Predictor", b"startxref", b"xref", b"/Filter", b"/Kids", b"/Count"];
     let mut out = Vec::new();
     for k in keys {
@@ -379,6 +385,7 @@ pub fn c04_faulted(ctx: &Ctx, out: &mut RunOut) -> Result<(), Violation> {
                 "splice" => "fault-splice",
                 "digit-edit" => "fault-digit-edit",
                 "ref-retarget" => "fault-ref-retarget",
+                "replicated-block" => "fault-replicated-block",
                 _ => "fault-none",
             });
             kinds.push(k);
